@@ -13,7 +13,11 @@ ACL verdict (refused / passed) of every operation of the protocol on the node re
 Oracle (real code only): flags never shrink along a chain; from a read_only node every
 mutating operation raises and the raw dump stays unchanged; a skel_only node never returns
 dataset contents / attribute values / metadata objects; a local_only node never reaches
-anything above the node it was declared on; `restrict` only adds.
+anything above the node it was declared on (every node a chain passes through is compared with
+the local root, `.parent` is repeated beyond the point where it should be refused); `restrict`
+only adds. Attribute manager: every public method of the raw manager (dir()) is tried through
+`attrs` of every read_only / skel_only node reached (`am_sweep`): no attribute value of the
+fixture may come back under skel_only, the raw attributes may not change under read_only.
 """
 import os
 
@@ -722,11 +726,15 @@ def gen_cases(ctx):
 
 
 def run(ctx):
-    ctx.rule = ("cases: explicit navigation chains ([], get, items/values/keys/iteration + lookup, visititems, parent, metador.query results, require_group/"
+    ctx.rule = ("cases: explicit navigation chains ([], get, items/values/keys/iteration + lookup, visititems, visit + lookup, parent, metador.query results, require_group/"
                 "require_dataset, absolute lookups, restrict with every single flag and with all-False) from 4 start nodes x 8 flag sets on a fixed container "
                 "(root, /g{d,h{e}}, /top; metadata at /, /g, /g/d, /g/h/e; attributes) on h5py.File and IH5Record (second patch open); after every chain every "
-                "operation of the group/dataset/attribute/metadata protocol on the node reached (once per distinct wrapper state). Non-trivial = tagged: step kinds, "
-                "chain lengths, error classes, op batches per node kind x flag set.")
+                "operation of the group/dataset/attribute/metadata protocol on the node reached (once per distinct wrapper state). Where `.parent` is expected to be "
+                "refused (local root) the chain continues with three more `.parent` calls; a 'climb' family takes every local root x every one or two downward steps "
+                "with every argument (multi-segment paths, visitor arguments, query results) x `.parent` repeated past the top. On every read_only / skel_only node "
+                "reached, every public method of the underlying attribute manager (dir()) is called through `attrs` with six argument shapes (oracle only: value "
+                "handed out under skel_only, attributes changed under read_only). Non-trivial = tagged: step kinds, chain lengths, error classes, op batches per "
+                "node kind x flag set, attribute-manager method x outcome.")
     ctx.trusted.append("harness/translate.py: ast extraction of the ACL table (wrapping of results, _guard_acl calls before __wrapped__, restrict, parent, attribute whitelist); TableOk re-checked on every run")
     ctx.assumptions += [
         "a wrapper object is determined by (node, flags, chain of remembered local parents); operations on two wrappers with equal state behave alike (used to run the operation batch once per state)",
@@ -755,8 +763,10 @@ def shrink(ctx, case, detail):
         if c == chain:
             kind = k
 
-    def run1(ch):
+    def run1(ch, flags=None):
         c2 = dict(case, chains=[[ch, kind]] + ([[ch, "d" if kind == "g" else "g"]]))
+        if flags is not None:
+            c2["flags"] = flags
         r = pool.run_one(MOD, "impl", c2, timeout=120)
         if "ok" in r:
             ds = [d for d in r["ok"]["oracle"] if d.get("kind") == want]
@@ -767,14 +777,27 @@ def shrink(ctx, case, detail):
     if not best:
         return case, detail
     cur = list(chain)
+    flags = case["flags"]
     changed = True
-    while changed and len(cur) > 1:
+    while changed:
         changed = False
+        # drop steps of the chain
         for i in range(len(cur)):
+            if len(cur) <= 1:
+                break
             cand = cur[:i] + cur[i + 1:]
-            r = run1(cand)
+            r = run1(cand, flags)
             if r:
                 cur, best, changed = cand, r, True
+                break
+        if changed:
+            continue
+        # drop flags of the start node
+        for f in flags.replace("-", ""):
+            cand = flags.replace(f, "") or "-"
+            r = run1(cur, cand)
+            if r:
+                flags, best, changed = cand, r, True
                 break
     c2, d = best
     return dict(c2, chains=[c2["chains"][0]]), d
